@@ -169,6 +169,14 @@ def aimed_case(rng):
         i = rng.randrange(len(text))
         pat = _re.escape(text[:i]) + pick(rng, ['.', '.', '.+', '.*', '[^x]']) + _re.escape(text[i + 1:]) + pick(rng, ['', '$'])
         p['context'] = [(k2, r2) for k2, r2 in p['context'] if k2 != key] + [(key, ('regex', pat))]
+    if kind == 'rule' and rng.random() < 0.1:
+        # a non-finite float as a rule argument ("no upper bound"): written as the JSON token Infinity and read back
+        inf = float('inf')
+        ctxq = dict(q0['context']) if isinstance(q0['context'], dict) else {}
+        ctxq['zz_bound'] = pick(rng, [5, 10 ** 9, 2.5])
+        q0['context'] = ctxq
+        p['context'] = [(k2, r2) for k2, r2 in p['context'] if k2 != 'zz_bound'] + \
+            [('zz_bound', pick(rng, [('le', inf), ('lt', inf), ('gt', -inf), ('ne', inf), ('not', ('ge', inf))]))]
     qs = [q0]
     for _ in range(6):
         m = dict(q0)
